@@ -9,9 +9,9 @@ echo "$res" | grep -q "^CONFIRMED" || exit 1
 d="$V/seeded/$id"; mkdir -p "$d"
 cp "$out/$m.diff" "$d/patch.diff"; cp "$out/${m}_demo_test.go" "$d/demo_test.go"
 python3 - "$out/$m.json" "$d/meta.json" "$prop" <<'PY'
-import json, sys
+import json, sys, os
 m = json.load(open(sys.argv[1])); m["property"] = sys.argv[3]
-m["origin"] = "independent sub-agent (fourth round), given only the property text and a scratch worktree of /repo"
+m["origin"] = os.environ.get("ORIGIN", "independent sub-agent, given only the property text and a scratch worktree of /repo")
 m["confirmed"] = "tools/confirm_mutation.sh in a scratch worktree: demo passes on the clean tree; with patch.diff applied 'go build ./...', 'go build -tags verif ./...' and 'go test -vet=off -count=1 ./...' pass and the demo fails"
 json.dump(m, open(sys.argv[2], "w"), indent=1)
 PY
